@@ -53,6 +53,8 @@ type ShardResult struct {
 	CapNote      string               `json:"cap_note,omitempty"`
 	HarnessErr   string               `json:"harness_err,omitempty"`
 	Conf         []ConfCase           `json:"conf,omitempty"`
+	// ProblemCases: grammars whose emitted code the loader refused (decided by the real compiler in the parent)
+	ProblemCases []ConfCase `json:"problem_cases,omitempty"`
 	confSeen     int
 	warmSeen     int
 }
@@ -425,6 +427,37 @@ func runCheck(id, tier string) int {
 			merged.Violations = append(merged.Violations, v)
 		}
 		conf = nil
+		if len(loaderAtFault) > 0 {
+			for _, l := range loaderAtFault {
+				fmt.Fprintln(os.Stderr, "harness error: the loader refuses emitted code that the real tool chain compiles, vets and initialises:", l)
+			}
+			return 2
+		}
+	}
+	// emitted code the loader refused (all checks but C04, which has them in its batch): the real
+	// compiler decides whether that is a defect of the emitted code (C04's subject; this check goes
+	// on with what it could load) or a limit of the loader (harness error: no verdict)
+	if id != "C04" {
+		var pcs []ConfCase
+		for _, r := range results {
+			if len(pcs) < 6 {
+				pcs = append(pcs, r.ProblemCases...)
+			}
+		}
+		if len(pcs) > 0 {
+			_, viols, err := compileBatch(pcs)
+			if err != nil {
+				fmt.Fprintln(os.Stderr, "harness error: compile batch:", err)
+				return 2
+			}
+			if len(loaderAtFault) > 0 {
+				for _, l := range loaderAtFault {
+					fmt.Fprintln(os.Stderr, "harness error: the loader refuses emitted code that the real tool chain compiles, vets and initialises:", l)
+				}
+				return 2
+			}
+			fmt.Printf("note: %d grammars were not run because their emitted code does not compile (C04's subject), e.g. %s\n", merged.Counters["emitted_code_problem"], viols[0].Desc)
+		}
 	}
 	if len(conf) > 0 && os.Getenv("VERIF_NO_CONFORMANCE") == "" {
 		validated, mism, err := runConformance(conf)
